@@ -341,6 +341,8 @@ where
         // FIXME: Use `Box::into_non_null` once stable
         let memo = NonNull::from(Box::leak(Box::new(memo)));
 
+        #[cfg(feature = "verif")]
+        crate::verif::failpoint(crate::verif::Site::BeforeInsertMemo);
         if let Some(old_value) =
             self.insert_memo_into_table_for(zalsa, id, memo, memo_ingredient_index)
         {
@@ -351,6 +353,8 @@ where
             // memo contents, and so it will be safe to free.
             unsafe { self.deleted_entries.push(old_value) };
         }
+        #[cfg(feature = "verif")]
+        crate::verif::failpoint(crate::verif::Site::AfterInsertMemo);
         // SAFETY: memo has been inserted into the table
         unsafe { self.extend_memo_lifetime(memo.as_ref()) }
     }
